@@ -290,8 +290,8 @@ PROPS["C06"] = {
     "lean": ["C06"],
     "required": ["C06.c06_pool_limit_is_type_quota", "C06.c06_no_whole_dispose_while_request_waits", "C06.c06_tracked_plus_asked_within_limit", "C06.c06_assign_request_fits", "C06.c06_create_only_without_eni",
                  "C06.c06_created_goes_to_empty_slot", "C06.c06_marked_is_idle_and_secondary", "C06.c06_unassign_batch",
-                 "C06.c06_dispose_marks_only_idle", "C06.c06_delete_only_unused", "C06.c06_whole_eni_only_unused"],
-    "rule": _PW_RULE + " Every cloud call's arguments are also checked at call time against the fake cloud's state and the harness's reply ledger (quota, batch, in-use, primary). Plus 400 / 8000 start-up configuration cases (limit vectors with IPv6 quota equal to / below / above the IPv4 quota x IP stack x mode) through the real checkInstance and getPoolConfig (ops cap.check, cap.pool of C19's model): IPv6 must be switched off whenever the pool's single per-interface limit would exceed the type's IPv6 quota.",
+                 "C06.c06_dispose_marks_only_idle", "C06.c06_delete_only_unused", "C06.c06_whole_eni_only_unused", "C06.c06_attached_flags_are_types"],
+    "rule": _PW_RULE + " The flags by which the pool knows the trunk and RDMA interfaces it must never dispose: 80 / 800 ops fa.attached - the real factory's GetAttachedNetworkInterface (start-up listing) over a fake metadata listing of 1-4 interfaces and the scripted SDK transport's DescribeNetworkInterfaces (types Secondary / Trunk / RDMA traffic mode; trunking, ERDMA and interface tags on or off; a preferred trunk id or none), flags per interface compared with Model/Factory.lean attached, monitor C06/factory/attached-type-flags. Every cloud call's arguments are also checked at call time against the fake cloud's state and the harness's reply ledger (quota, batch, in-use, primary). Plus 400 / 8000 start-up configuration cases (limit vectors with IPv6 quota equal to / below / above the IPv4 quota x IP stack x mode) through the real checkInstance and getPoolConfig (ops cap.check, cap.pool of C19's model): IPv6 must be switched off whenever the pool's single per-interface limit would exceed the type's IPv6 quota.",
     "technique": "Lean 4: invariant 'tracked + asked-for <= per-ENI limit' and 'marked for unassignment => idle and secondary' proved over all interleavings; plan functions of the factory/dispose workers bounded by theorem; refinement check of every real lock region incl. the arguments of every cloud call",
     "level_text": "Theorem c06_pool_limit_is_type_quota: the single per-interface limit the pool is started with (MaxIPPerENI = the type's IPv4 quota) is the type's quota in every family left enabled - IPv6 stays on in multi-IP mode only when its quota equals the IPv4 quota. Theorems: in every reachable state tracked plus asked-for addresses fit the per-ENI limit in each family; an assign request fits the free slots and the batch; an interface is created only on a slot without one (at most one per slot); only marked, idle, non-primary addresses are unassigned; shrinking marks only idle addresses; an interface is deleted only in deleting state with nothing held and nothing queued. Trunk and ERDMA interfaces (never disposed) are outside the model: partial.",
     "level_note": "Trusted: Lean kernel; fake cloud; the balancer's n is recomputed by the driver from the recorded Usage regions.",
